@@ -8,7 +8,11 @@ import GMModel.Restr
                                                                     `Manager.align_molecules` uses)
     Manager._parse_deformations            → `parseDeformations`  (REPAIRED: values validated, D10)
     Manager._parse_ignore_hydrogens        → `parseIgnore`
-    Manager.align_molecules                → `managerAlign`       (parse_restrictions = True, the default)
+    Manager.align_molecules                → `managerAlign`       (parse_restrictions = True, the default,
+                                                                    or restrictions = None)
+                                              `managerAlignPreparsed` (parse_restrictions = False with a
+                                                                    dictionary in the format parse_restrictions
+                                                                    returns: it is used as given)
 
   Python dicts are association lists in insertion order; `name in d` / `d[name]` is `List.lookup`.
   The dynamically typed option values are modelled by the small sums below: each constructor is
@@ -267,5 +271,21 @@ def managerAlign (sys : List (Species P)) (restrictions : Option (Dict RestrArg)
       match parseIgnore sys ignore with
       | .error e => ⟨[], some e⟩
       | .ok h => alignLoop (complete sys) d h r
+
+/-- `Manager.align_molecules(restrictions, deformation_types, ignore_hydrogens,
+    parse_restrictions=False)` with `restrictions` a dictionary in the format `parse_restrictions`
+    returns (`name ↦ None | list of int pairs`).  The dictionary is NOT validated and NOT completed:
+    `for name in restrictions:` walks the caller's keys in the caller's order, so only the species
+    listed are aligned, in that order; `deformation_types[name]` / `ignore_hydrogens[name]` /
+    `mols_corr[name]` are looked up by name in the parsed dictionaries (a key that is not a complete
+    species raises `KeyError` there, i.e. after the alignments of the keys before it). -/
+def managerAlignPreparsed (sys : List (Species P)) (restrictions : Dict (Option (List Pair)))
+    (deformations : Option (Dict DefArg)) (ignore : Option (Dict IgnArg)) : RouteOut P :=
+  match parseDeformations sys deformations with
+  | .error e => ⟨[], some e⟩
+  | .ok d =>
+    match parseIgnore sys ignore with
+    | .error e => ⟨[], some e⟩
+    | .ok h => alignLoop (complete sys) d h restrictions
 
 end Restr
